@@ -39,6 +39,8 @@ Definition oz (o : option Z) : Z := match o with Some n => n | None => -1 end.
 Definition sel (m : list Z) (hascl : bool) (d : option (list Z)) (f : option (list (list Z * list Z))) (b : list Z) :=
   let r := {| q_method := m; q_has_cl := hascl; q_data := d; q_fargs := f; q_body := b |} in
   (fst (select_body r) ++ [ct_code (snd (select_body r)); oz (added_content_length r)]).
+Definition cv (evs : list wsgi_ev) : list Z :=
+  let '(st, cl, b, c) := client_view (serve_app evs) in st :: oz cl :: (if c then 1 else 0) :: b.
 Definition dres_code (d : dres) : list Z * list Z :=
   match d with NeedMore => ([-1], []) | Bad => ([-2], []) | Done b r => (0 :: b, r) end.
 """
@@ -234,7 +236,7 @@ def gen_request(rng):
 
 def gen_response(rng):
     from ioflo.aio.http import httping
-    kind = rng.choice(['len', 'len', 'chunked', 'stream', 'empty', 'error_gen', 'error_call'])
+    kind = rng.choice(['len', 'len', 'chunked', 'stream', 'empty', 'error_gen', 'error_call', 'raise', 'raise', 'raise'])
     hdrs = []
     for h in rng.sample([u"X-A", u"Etag", u"Cache-Control", u"X-" + rand_token(rng), u"Content-Type"], rng.randint(0, 3)):
         v = u"".join(rng.choice(u"abc XYZ;=,/éÿ*!") for _ in range(rng.randint(1, 10))).strip() or u"v"
@@ -249,7 +251,18 @@ def gen_response(rng):
         resp["pieces"] = [rand_bytes(rng, rng.choice([0, 1, 5, 30, 200])) for _ in range(rng.randint(1, 4))]
         if kind == 'len' and not any(resp["pieces"]):
             resp["pieces"] = [b"x"]
-    if kind.startswith('error'):
+    if kind == 'raise':
+        # HTTPError raised at every point: before start_response / after it / after idle yields /
+        # after body bytes; generator or plain callable; with and without a declared Content-Length
+        resp["style"] = rng.choice(['gen', 'callable'])
+        resp["start"] = rng.random() < 0.8
+        n = rng.choice([0, 0, 1, 2, 3])
+        resp["pieces"] = [b"" if rng.random() < 0.5 else rand_bytes(rng, rng.choice([1, 4, 30])) for _ in range(n)] \
+            if resp["start"] else []
+        tot = sum(len(p) for p in resp["pieces"])
+        resp["declared"] = rng.choice([None, None, tot, tot + rng.randint(1, 9), max(0, tot - rng.randint(1, 3))]) \
+            if resp["start"] else None
+    if kind.startswith('error') or kind == 'raise':
         e = {"status": rng.choice([400, 404, 409, 500, 503, 700])}
         if rng.random() < 0.4:
             e["reason"] = rng.choice([u"Busy", u"Nope Not Now"])
@@ -315,9 +328,28 @@ def exchange_violation(req, resp, out):
         return "SERVER_PROTOCOL/url_scheme %r %r" % (env.get("SERVER_PROTOCOL"), env.get("wsgi.url_scheme"))
     # response direction
     r = out["response"]
+    head_sent = False
+    if resp["kind"] == "raise":
+        # a raised HTTPError is what the client must parse as long as no head has been sent, i.e.
+        # no non-empty piece was yielded; afterwards the outcome is that of the application
+        # stopping there: original status, the bytes so far (cut at the declared length)
+        head_sent = resp["start"] and any(resp["pieces"])
+        if head_sent:
+            sofar = b"".join(resp["pieces"])
+            if resp["declared"] is not None:
+                sofar = sofar[:resp["declared"]]
+            if resp["declared"] is not None and len(sofar) < resp["declared"]:
+                # the declared length can never be reached: no complete response may be filed
+                if r is not None and req["method"] != u"HEAD":   # (a HEAD client never waits for a body)
+                    return "a response %r %r was filed although only %d of %d declared bytes exist" % (
+                        r["status"], r["body"][:40], len(sofar), resp["declared"])
+                st0 = resp["status"].split(" ")[0].encode()
+                if not out["response_wire"].startswith(b"HTTP/1.1 " + st0) or not out["response_wire"].endswith(sofar):
+                    return "wire %r does not hold the original head and the %d bytes yielded" % (out["response_wire"][:80], len(sofar))
+                return None
     if r is None:
         return "no response reached the client"
-    if resp["kind"].startswith("error"):
+    if resp["kind"].startswith("error") or (resp["kind"] == "raise" and not head_sent):
         ex = harness.make_error(resp["error"])
         st, reason = ex.status, ex.reason
         wbody = ex.render()
@@ -328,6 +360,8 @@ def exchange_violation(req, resp, out):
         st, _, reason = resp["status"].partition(" ")
         st = int(st)
         wbody = b"".join(resp.get("pieces", []))
+        if resp["kind"] == "raise" and resp["declared"] is not None:
+            wbody = wbody[:resp["declared"]]
         whdrs = list(resp["headers"])
     if r["status"] != st or r["reason"] != reason:
         return "status %r %r != %r %r" % (r["status"], r["reason"], st, reason)
@@ -346,6 +380,70 @@ def exchange_violation(req, resp, out):
     return None
 
 
+def resp_events(resp):
+    """the WSGI application's behaviour as the model's event list"""
+    ev = []
+    kind = resp["kind"]
+    if kind in ("error_gen", "error_call"):
+        ex = harness.make_error(resp["error"])
+        return [("raise", ex.status, ex.render())]
+    code = int(resp["status"].split(" ")[0])
+    if kind == "raise":
+        if resp["start"]:
+            ev.append(("start", code, resp["declared"]))
+        ev += [("yield", p) for p in resp["pieces"]]
+        ex = harness.make_error(resp["error"])
+        ev.append(("raise", ex.status, ex.render()))
+        return ev
+    pieces = resp.get("pieces", [])
+    ev.append(("start", code, sum(len(p) for p in pieces) if kind == "len" else None))
+    ev += [("yield", p) for p in pieces]
+    return ev
+
+
+def c_events(evs):
+    out = []
+    for e in evs:
+        if e[0] == "start":
+            out.append("EvStart %s %s" % (cz(e[1]), copt(e[2], cz)))
+        elif e[0] == "yield":
+            out.append("EvYield %s" % cbytes(e[1]))
+        else:
+            out.append("EvRaise %s %s" % (cz(e[1]), cbytes(e[2])))
+    return clist(out, "wsgi_ev")
+
+
+def wire_view(wire):
+    """(status, declared length or -1, complete 0/1, body bytes) read off the server->client bytes"""
+    head, sep, rest = wire.partition(b"\r\n\r\n")
+    if not sep:
+        return [-1, -1, 0]
+    lines = head.split(b"\r\n")
+    status = int(lines[0].split(b" ")[1])
+    hd = {}
+    for l in lines[1:]:
+        k, _, v = l.partition(b":")
+        hd[k.strip().lower()] = v.strip()
+    if hd.get(b"transfer-encoding", b"").lower() == b"chunked":
+        body, complete = bytearray(), 0
+        while True:
+            j = rest.find(b"\r\n")
+            if j < 0:
+                break
+            n = int(rest[:j], 16)
+            rest = rest[j + 2:]
+            if n == 0:
+                complete = 1 if rest[:2] == b"\r\n" else 0
+                break
+            body.extend(rest[:n])
+            rest = rest[n + 2:]
+        return [status, -1, complete] + list(body)
+    if b"content-length" in hd:
+        n = int(hd[b"content-length"])
+        return [status, n, 1 if len(rest) == n else 0] + list(rest)
+    return [status, -1, 0] + list(rest)
+
+
 def run(ctx):
     ctx.rule = ("(A) per function: every single byte x 3 safe sets, all strings over '%+4aAgG ' up to length 3, seeded random "
                 "byte/unicode strings (quote, quote_plus, unquote, unquote_plus); random token-keyed query arguments with "
@@ -354,7 +452,8 @@ def run(ctx):
                 "random piece lists through packChunk and (possibly truncated) through parseChunk. (B) seeded random "
                 "requests (9 methods, unicode paths, token query names with arbitrary values, latin-1 headers, binary "
                 "body | JSON | form arguments) x responses (fixed, chunked, generator-streamed, empty, HTTPError raised in "
-                "the generator or by the call) through real Patron and Valet; non-trivial = value with a reserved or "
+                "the generator or by the call, and HTTPError raised at every point -- before/after start_response, after idle "
+                "yields, after body bytes, generator or plain callable, with/without declared Content-Length) through real Patron and Valet; non-trivial = value with a reserved or "
                 "non-ASCII character, or a length-less / error response")
     ctx.assumptions = [
         "transport double fakenet (C31); one exchange per connection",
@@ -375,10 +474,14 @@ def run(ctx):
         ctx.extra["mismatches_" + nm] = len(bad)
 
     failing = []
-    for _ in range(ctx.n(350, 5000)):
+    evcases, evmeta = [], []
+    for _ in range(ctx.n(450, 5000)):
         req = gen_request(ctx.rng)
         resp = gen_response(ctx.rng)
         out = harness.run_exchange(req, resp)
+        if out["response_wire"] and not out["error"]:
+            evcases.append(("(cv %s)" % c_events(resp_events(resp)), clist([cz(x) for x in wire_view(out["response_wire"])], "Z")))
+            evmeta.append((req, resp, out))
         texts = [v for k, v in req["qargs"]] + [v for k, v in (req["fargs"] or [])] + [req["path"]]
         nontrivial = any(any((c in RESERVED and c != u"/") or ord(c) > 127 for c in t) for t in texts) \
             or resp["kind"] not in ("len",)
@@ -386,6 +489,11 @@ def run(ctx):
         why = exchange_violation(req, resp, out)
         if why:
             failing.append((req, resp, out, why))
+    badev = ctx.coq_cases(HEADER, "lz_eqb", evcases, shard=150, name="resp_events")
+    for i in badev[:4]:
+        ctx.tie_broken("correspondence", "C30 model serve_app/client_view vs Responder.service",
+                       "resp=%r wire=%r" % (evmeta[i][1], evmeta[i][2]["response_wire"][:300]))
+    ctx.extra["mismatches_resp_events"] = len(badev)
     for req, resp, out, why in failing[:4]:
         ctx.tie_broken("correspondence", "property statement on the implementation", "%s; req=%r resp=%r" % (why, req, resp))
     ctx.extra["property_failures"] = len(failing)
@@ -407,6 +515,9 @@ def run(ctx):
             key = "form-reserved-chars"
         elif "HTTPError" in why and resp["kind"] == "error_call":
             key = "httperror-at-call"
+        elif resp["kind"] == "raise":
+            key = "httperror-raised-%s" % ("after-bytes" if (resp["start"] and any(resp["pieces"])) else
+                                           ("after-start" if resp["start"] else "before-start"))
         else:
             key = "roundtrip-other"
         return {"key": key, "request": repr(req), "response_spec": repr(resp), "why": why,
@@ -422,4 +533,12 @@ def directed():
     r1 = dict(base)
     r1["fargs"] = [(u"a", u"x&y=z")]
     r2 = dict(base)
-    return [(r1, ok), (r2, {"kind": "error_call", "error": {"status": 404}})]
+    out = [(r1, ok), (r2, {"kind": "error_call", "error": {"status": 404}})]
+    get = dict(base)
+    get["method"] = u"GET"
+    for style in ("gen", "callable"):
+        for start, pieces, declared in ((False, [], None), (True, [], None), (True, [], 5), (True, [b""], None),
+                                        (True, [b""], 3), (True, [b"ab"], None), (True, [b"ab"], 5), (True, [b"ab"], 2)):
+            out.append((get, {"kind": "raise", "style": style, "start": start, "pieces": pieces, "declared": declared,
+                              "status": "200 OK", "headers": [("X-A", "b")], "error": {"status": 404, "title": "T"}}))
+    return out
